@@ -241,7 +241,7 @@ def eq_line(e, val, prefix="e"):
 def run(ctx):
     cov = {"samples": []}
     rng = random.Random(ctx.seed)
-    workers = 4 if ctx.quick else 8
+    workers = 8
     cache = os.environ.get("VERIF_C16_DEVCACHE")     # development aid only: reuse one TLC enumeration
     if cache and os.path.exists(cache):
         import pickle
